@@ -74,6 +74,7 @@ const (
 	missingFile
 	garbageFile
 	http500
+	plugErrRealFile // the plug-in fails although the source names a readable profile file: no silent fallback
 	nKinds
 )
 
@@ -103,6 +104,11 @@ func runOne(c *bcase, schedule string) fetchEvent {
 				os.WriteFile(n, []byte("\x00\x01 not a profile "+n), 0o644)
 			case http500:
 				n = "http://unreachable.invalid/" + n
+			case plugErrRealFile:
+				n = filepath.Join(dir, "real-"+n+".pb.gz")
+				var b bytes.Buffer
+				srcProfile(g, i).Write(&b)
+				os.WriteFile(n, b.Bytes(), 0o644)
 			}
 			kind[n] = k
 		}
@@ -149,7 +155,7 @@ func runOne(c *bcase, schedule string) fetchEvent {
 			return srcProfile(x.G, x.I), nil
 		}
 		switch kind[src] {
-		case plugErr:
+		case plugErr, plugErrRealFile:
 			return nil, fmt.Errorf("scripted fetch failure")
 		case invalid:
 			p := srcProfile(x.G, x.I)
@@ -219,7 +225,11 @@ func runOne(c *bcase, schedule string) fetchEvent {
 	}
 	args := append([]string{"-proto", "-output=out", "-symbolize=none"}, flags...)
 	args = append(args, srcs...)
-	res := vdrv.Run(vdrv.Opts{Args: args, Fetch: fetch, Transport: transport{}})
+	var errDelay time.Duration
+	if evN%3 == 0 {
+		errDelay = 3 * time.Millisecond // a slow terminal: error reporting overlaps with fetches that are still completing
+	}
+	res := vdrv.Run(vdrv.Opts{Args: args, Fetch: fetch, Transport: transport{}, ErrDelay: errDelay})
 	ev := fetchEvent{Op: "fetch", N: evN, SrcOK: c.SrcOK, BaseOK: c.BaseOK, Merged: []gi{}, Errs: []gi{}, Schedule: schedule}
 	if ev.SrcOK == nil {
 		ev.SrcOK = []bool{}
